@@ -27,7 +27,7 @@ func escapeClass(t *Tree, f *ssa.Function, c int, quote byte) (string, string) {
 		MaxVisits: 400000, MaxLoop: 10,
 	}
 	cfg.Call = func(fn *ssa.Function, call *ssa.Call, nth int, args []sval) (sval, bool) {
-		if cal := call.Call.StaticCallee(); cal != nil && cal.Name() == "unhex" {
+		if cal := call.Call.StaticCallee(); cal != nil && fnName(cal) == "unhex" {
 			return sval{tup: []sval{symv("hexval"), symv("hexok")}}, true
 		}
 		return stdErrCall(fn, call, nth, args)
@@ -197,7 +197,7 @@ func c07LexSuperset(c *Ctx, accepted map[byte]map[int]bool) {
 				if cal == errorf {
 					return symv("effect:errorf " + args[1].String()), true
 				}
-				if cal != nil && (cal.Name() == "Debugf" || cal.Name() == "digitVal") {
+				if cal != nil && (fnName(cal) == "Debugf" || fnName(cal) == "digitVal") {
 					return symv(cal.Name()), true
 				}
 				return sval{}, false
@@ -336,7 +336,7 @@ func c07Numbers(c *Ctx) {
 	var pfVia *ssa.Call // f's call to the helper that holds the float path, if it was moved out
 	allInstrs(f, func(in ssa.Instruction) {
 		if call, ok := in.(*ssa.Call); ok && call.Call.StaticCallee() != nil {
-			switch call.Call.StaticCallee().Name() {
+			switch fnName(call.Call.StaticCallee()) {
 			case "ParseInt":
 				pi = call
 			case "ParseFloat":
@@ -351,7 +351,7 @@ func c07Numbers(c *Ctx) {
 				return
 			}
 			allInstrs(via.Call.StaticCallee(), func(i2 ssa.Instruction) {
-				if c2, ok := i2.(*ssa.Call); ok && c2.Call.StaticCallee() != nil && c2.Call.StaticCallee().Name() == "ParseFloat" {
+				if c2, ok := i2.(*ssa.Call); ok && c2.Call.StaticCallee() != nil && fnName(c2.Call.StaticCallee()) == "ParseFloat" {
 					pf, pfVia = c2, via
 				}
 			})
@@ -450,7 +450,7 @@ func c07Keywords(c *Ctx) {
 		r.Fn(relName(f))
 		allInstrs(f, func(in ssa.Instruction) {
 			if lk, isL := in.(*ssa.Lookup); isL && strings.HasSuffix(path(lk.X), "keywords") {
-				if call, isC := lk.Index.(*ssa.Call); isC && call.Call.StaticCallee() != nil && call.Call.StaticCallee().Name() == "ToLower" {
+				if call, isC := lk.Index.(*ssa.Call); isC && call.Call.StaticCallee() != nil && fnName(call.Call.StaticCallee()) == "ToLower" {
 					ok = true
 				}
 			}
@@ -610,7 +610,7 @@ func c07Delims(c *Ctx) {
 				if cal == nil || cal.Pkg == nil || cal.Pkg.Pkg.Path() != "strings" {
 					return
 				}
-				switch cal.Name() {
+				switch fnName(cal) {
 				case "Trim", "TrimLeft", "TrimRight", "TrimFunc", "TrimLeftFunc", "TrimRightFunc":
 					cutset = cal.Name()
 				case "TrimPrefix", "TrimSuffix":
@@ -760,9 +760,9 @@ func c07QuoteOpen(c *Ctx) {
 				return symv(fmt.Sprintf("peek#%d", nSym)), true
 			case cal == emit:
 				return symv("effect:emit " + args[len(args)-1].String()), true
-			case cal.Name() == "backup" || cal.Name() == "ignore" || cal.Name() == "Debugf":
+			case fnName(cal) == "backup" || fnName(cal) == "ignore" || fnName(cal) == "Debugf":
 				return symv(cal.Name()), true
-			case cal.Pkg != nil && cal.Pkg.Pkg.Path() == "strings" && cal.Name() == "HasPrefix":
+			case cal.Pkg != nil && cal.Pkg.Pkg.Path() == "strings" && fnName(cal) == "HasPrefix":
 				return constv(constant.MakeBool(false)), true
 			case cal.Pkg != nil && (cal.Pkg.Pkg.Path() == "strings" || cal.Pkg.Pkg.Path() == "unicode"):
 				var as []string
@@ -859,7 +859,7 @@ func c07NumbersSpec(f *ssa.Function) (okInt, okFloat, okIntVal, okFloatVal bool)
 		if cal == nil {
 			return sval{}, false
 		}
-		switch cal.Name() {
+		switch fnName(cal) {
 		case "ParseInt":
 			intArgs = fmt.Sprint(args)
 			return sval{tup: []sval{symv("INTVAL"), symv("interr")}}, true
